@@ -106,7 +106,9 @@ pub fn run_prop(ctx: &Ctx, sink: &mut Sink) {
         let d1 = std::fs::metadata(t.join("d1")).unwrap();
         for _c in 0..(if ctx.thorough { 40 } else { 24 }) {
             let flag = *rng.pick(&["P", "H", "L"]);
-            let follow_cfg = flag != "P";
+            // -follow in front of the expression is in force when the reference of -samefile is resolved
+            let with_follow = rng.chance(1, 10);
+            let follow_cfg = flag != "P" || with_follow;
             let tok: String = match rng.below(12) {
                 0 => format!("type:{}", rng.pick(&["f", "d", "l", "p", "s"])),
                 1 | 2 => format!("xtype:{}", rng.pick(&["f", "d", "l", "p", "s"])),
@@ -125,7 +127,7 @@ pub fn run_prop(ctx: &Ctx, sink: &mut Sink) {
                 _ => format!("lname:{}", hex(rng.pick(&["f0", "d1", "nothing", "lself", "p0"]).as_bytes())),
             };
             let mut toks = vec!["sorted".to_string(), tok.clone(), "print0".to_string()];
-            if rng.chance(1, 10) { toks.insert(0, "follow".into()); }
+            if with_follow { toks.insert(0, "follow".into()); }
             let nroots = if rng.chance(3, 4) { 1 } else { 2 };
             let mut roots = vec![];
             for _ in 0..nroots {
